@@ -105,7 +105,30 @@ func ruleBuildersStoreAll(c *core.Ctx, rule string) {
 					if br, ok := s.(*ast.BranchStmt); ok && br.Tok == token.CONTINUE {
 						cond := strings.ReplaceAll(core.ExprStr(is.Cond), " ", "")
 						o.At(fn.Site(is, "skip when "+cond))
-						if cond != "parentCID==cid" {
+						// the only legitimate skip: the parent CMap already maps the code to
+						// the same value (the loop's value variable), whatever the locals are called
+						okSkip := false
+						if be, isBin := ast.Unparen(is.Cond).(*ast.BinaryExpr); isBin && be.Op == token.EQL {
+							valObj := core.ObjOf(info, head.Cond.Range.Value)
+							for _, pr := range [][2]ast.Expr{{be.X, be.Y}, {be.Y, be.X}} {
+								if valObj == nil || core.ObjOf(info, pr[1]) != valObj {
+									continue
+								}
+								if iv := g.VertexOf(is); iv != nil {
+									all := true
+									for _, vc := range valueCases(g, iv, pr[0], 2) {
+										call, isCall := ast.Unparen(vc.Expr).(*ast.CallExpr)
+										if !isCall || !strings.HasSuffix(core.CalleeKey(info, call), ".LookupCID") {
+											all = false
+										}
+									}
+									okSkip = all
+								} else if strings.ReplaceAll(core.ExprStr(pr[0]), " ", "") == "parentCID" {
+									okSkip = true
+								}
+							}
+						}
+						if !okSkip && cond != "parentCID==cid" {
 							o.FailAt(fn.Site(is, ""), "entries are skipped when %s", cond)
 						}
 					}
@@ -166,7 +189,10 @@ func ruleRunCompression(c *core.Ctx, rule string) {
 			if bv.Cond.Expr != nil && bv.AST != nil && bv.AST.Pos() >= fs.Body.Pos() && bv.AST.End() <= fs.Body.End() && g.EdgeDominates(setTrue, core.EdgeRef{From: bv, Label: core.EdgeTrue}) {
 				s := strings.ReplaceAll(core.ExprStr(bv.Cond.Expr), " ", "")
 				o.At(fn.Site(bv.AST, "pair comparison "+s))
-				if m := regexp.MustCompile(`^data\[(\w+)\[([^\]]+)\]\.code\]!=nextString\(data\[(\w+)\[([^\]]+)\]\.code\],1\)$`).FindStringSubmatch(s); m != nil && m[1] == m[3] &&
+				if regexp.MustCompile(`^(\w+)\[j\+1\]\.(\w+)!=nextString\((\w+)\[j\]\.(\w+),1\)$`).MatchString(s) && upper {
+					// the texts were stored in the run entries: info[j+1].value != nextString(info[j].value, 1)
+					okCmp = true
+				} else if m := regexp.MustCompile(`^data\[(\w+)\[([^\]]+)\]\.code\]!=nextString\(data\[(\w+)\[([^\]]+)\]\.code\],1\)$`).FindStringSubmatch(s); m != nil && m[1] == m[3] &&
 					((upper && m[2] == "j+1" && m[4] == "j") || (lower && m[2] == "j" && m[4] == "j-1")) {
 					okCmp = true
 				} else {
@@ -249,8 +275,25 @@ func ruleSimpleEncode(c *core.Ctx) {
 		g := fn.Graph()
 		info := fn.Info()
 		isInfo := func(e ast.Expr) bool {
-			sel, ok := ast.Unparen(e).(*ast.SelectorExpr)
-			return ok && sel.Sel.Name == "info"
+			if sel, ok := ast.Unparen(e).(*ast.SelectorExpr); ok {
+				return sel.Sel.Name == "info"
+			}
+			// a local that caches the field (infos := t.info, read once before the loop)
+			if id, ok := ast.Unparen(e).(*ast.Ident); ok {
+				defs := core.AssignsTo(info, fn.Decl, info.ObjectOf(id))
+				if len(defs) != 1 {
+					return false
+				}
+				if as, ok := defs[0].(*ast.AssignStmt); ok && len(as.Lhs) == len(as.Rhs) {
+					for i, l := range as.Lhs {
+						if core.ObjOf(info, l) == info.ObjectOf(id) {
+							sel, ok := ast.Unparen(as.Rhs[i]).(*ast.SelectorExpr)
+							return ok && sel.Sel.Name == "info"
+						}
+					}
+				}
+			}
+			return false
 		}
 		// the in-use lookup: _, used := t.info[candidate], inside the search loop
 		var used, codeVar types.Object
